@@ -56,14 +56,18 @@ def main():
                 continue
             env = dict(os.environ, VERIF_REPO=work, VERIF_SCRATCH=scratch, VERIF_NO_REPLAY="1",
                        VERIF_EVIDENCE_DIR=os.path.join(root, "evidence"))
-            r = subprocess.run([os.path.join(VERIF, "check"), pid, tier], cwd=VERIF, env=env, capture_output=True, text=True)
+            want = expect.get(name, [])
+            # only the units whose obligations are expected to notice this mutant are run
+            # (unit id = obligation name minus its last component); no expectation => whole property
+            units = sorted({".".join(o.split(".")[:-1]) for o in want})
+            cmd = [os.path.join(VERIF, "check"), pid, tier] + (["--unit", ",".join(units)] if units else [])
+            r = subprocess.run(cmd, cwd=VERIF, env=env, capture_output=True, text=True)
             refuted = []
             try:
-                with open(os.path.join(root, "evidence", pid + ".json")) as fh:  # full (non --unit) runs only
+                with open(os.path.join(root, "evidence", pid + (".partial.json" if units else ".json"))) as fh:
                     refuted = sorted(set(json.load(fh)["coverage"].get("refuted", [])))
             except Exception:
                 pass
-            want = expect.get(name, [])
             if r.returncode == 1 and (not want or set(want) & set(refuted)):
                 verdict = "refuted"
             elif r.returncode == 1:
